@@ -17,7 +17,7 @@ import numpy as np
 from .. import tlc, ftable
 from ..common import Report, MachineryError, seed, quiet
 from . import cyclo12 as cy
-from .tbf_common import (cyclo_library_check, fast_dump_states, build_system, exact_rows_array, TOL)
+from .tbf_common import (cyclo_library_check, fast_dump_states, build_system, exact_rows_array, validate_parallel, TOL)
 
 PROPS = {
     "C02": dict(level="model_checking",
@@ -330,12 +330,12 @@ def check(pid, tier):
     # ---------------- spec -> code
     if thorough:
         configs = [
-            ("c02_1d", dict(RSETID=1, NWS="{1, 2}", LATIDS="{1, 2}", TAUIDS="{1, 2, 3}", AMPIDS="{1, 2, 3, 4}", MAXHOPS=2,
+            ("c02_1d", dict(RSETID=1, NWS="{1, 2}", LATIDS="{1, 2}", TAUIDS="{1, 2, 3}", AMPIDS="{1, 2}", MAXHOPS=2,
                             FFTS="{111, 211, 311, 411, 611}", DKS="{0, 10000, 50000}", MAXDER=1), 4),
             ("c02_1d_der3", dict(RSETID=1, NWS="{1, 2}", LATIDS="{1, 2}", TAUIDS="{1, 2, 3}", AMPIDS="{1, 2, 3, 4}", MAXHOPS=1,
                                  FFTS="{111, 211, 311, 411, 611}", DKS="{0, 10000, 70000}", MAXDER=3), 1),
-            ("c02_2d", dict(RSETID=3, NWS="{1, 2}", LATIDS="{1, 2}", TAUIDS="{1, 2}", AMPIDS="{1, 2, 3, 4}", MAXHOPS=1,
-                            FFTS="{221, 231, 321, 341, 441, 621, 161, 331}", DKS="{0, 10300, 60500}", MAXDER=3), 1),
+            ("c02_2d", dict(RSETID=3, NWS="{1, 2}", LATIDS="{2}", TAUIDS="{1, 2}", AMPIDS="{1, 2}", MAXHOPS=1,
+                            FFTS="{221, 231, 321, 341, 441, 621}", DKS="{0, 60500}", MAXDER=2), 1),
             ("c02_2d_two", dict(RSETID=2, NWS="{2}", LATIDS="{2}", TAUIDS="{2}", AMPIDS="{1, 2}", MAXHOPS=2,
                                 FFTS="{221, 231, 341}", DKS="{10300}", MAXDER=1), 3),
             ("c02_3d", dict(RSETID=4, NWS="{1, 2}", LATIDS="{1, 3}", TAUIDS="{2}", AMPIDS="{1, 2}", MAXHOPS=1,
@@ -409,7 +409,7 @@ def check(pid, tier):
 
     # ---------------- code -> spec
     recs = []
-    nrec = 1500 if thorough else 90
+    nrec = 1000 if thorough else 90
     nmodel = 0
     while len(recs) < nrec:
         m = random_exact_model(rng, thorough)
@@ -419,7 +419,7 @@ def check(pid, tier):
             if r is not None:
                 recs.append(r)
                 rep.case(("rec", len(recs)), nontrivial=True)
-    stv, bad = ftable.validate_records("TBFourierRec.tla", ftable.REC_CFG, recs, "c02", timeout=3000, chunk=400)
+    stv, bad = validate_parallel("TBFourierRec.tla", recs, "c02", 8)
     rep.add_tlc("c02_records", stv)
     rep.add_traces(len(recs))
     for i, clauses in bad.items():
